@@ -313,8 +313,18 @@ pub fn run(ctx: &Ctx, rep: &mut Report) {
                     });
                 }
                 _ => {
-                    let d = *rng.pick(&[0u32, 1, 2, 16, 17, 100]);
-                    u.set_seq(seq + d);
+                    let mut d = *rng.pick(&[0u32, 1, 2, 16, 17, 100, 100, 17, 5_000, 1_300_000]);
+                    if d > 100 && !u.advance(0) {
+                        d = 17;
+                    }
+                    if d > 100 {
+                        if !u.advance(d) {
+                            d = 17;
+                            u.set_seq(seq + d);
+                        }
+                    } else {
+                        u.set_seq(seq + d);
+                    }
                     rep.step(format!("advance ledger by {} to {}", d, seq + d));
                     rep.count("op:advance");
                     rep.count(&format!("advance:{}", d));
@@ -385,7 +395,7 @@ pub fn run(ctx: &Ctx, rep: &mut Report) {
     req.extend(AMOUNTS.iter().map(|o| format!("amount:{}", o)));
     req.extend(EXPIRIES.iter().map(|o| format!("expiry:{}", o)));
     rep.notes.insert("required".into(), json!(req));
-    rep.notes.insert("rule".into(), json!("universes of 60 operations on the tree's native InterchainToken over 5 accounts + owner(s) + designated minter: mint, mint_from, transfer, approve, transfer_from, burn, burn_from, add/remove minter, ownership change (transfer_ownership / set_admin), ledger advancement by {0,1,2,16,17,100}; amounts in {0, 1, balance, balance+1, allowance, allowance+1, i128::MAX, negative, small}, expirations in {seq-1, seq, seq+1, seq+15, seq+16, seq+17, seq+1000, beyond the host TTL cap}; after every operation balance() of every holder, allowance() of all 25 account pairs, is_minter() and owner() are read back, sum of balances is compared with initial + mints - burns; one standard token event per successful change compared with independently built values. distinct = (op, amount class, expectation, outcome)"));
+    rep.notes.insert("rule".into(), json!("universes of 60 operations on the tree's native InterchainToken over 5 accounts + owner(s) + designated minter: mint, mint_from, transfer, approve, transfer_from, burn, burn_from, add/remove minter, ownership change (transfer_ownership / set_admin), ledger advancement by {0,1,2,16,17,100, 5 000, 1 300 000}; amounts in {0, 1, balance, balance+1, allowance, allowance+1, i128::MAX, negative, small}, expirations in {seq-1, seq, seq+1, seq+15, seq+16, seq+17, seq+1000, beyond the host TTL cap}; after every operation balance() of every holder, allowance() of all 25 account pairs, is_minter() and owner() are read back, sum of balances is compared with initial + mints - burns; one standard token event per successful change compared with independently built values. distinct = (op, amount class, expectation, outcome)"));
 }
 
 fn read_back(rep: &mut Report, u: &mut U, tok: &Address, cast: &[Address], m: &Model, op: &str) -> bool {
